@@ -77,12 +77,16 @@ class LaTeXRenderer(BaseRenderer):
     def render_escape_sequence(self, token):
         return self.render_inner(token)
 
+    # Escaping is done in a single pass: a chain of str.replace() calls cannot
+    # escape the backslash, because the replacements themselves contain one.
+    _escape_table = str.maketrans({
+        '\\': '\\textbackslash{}',
+        '$': '\\$', '#': '\\#', '{': '\\{', '}': '\\}',
+        '&': '\\&', '_': '\\_', '%': '\\%', '^': '\\^{}',
+    })
+
     def render_raw_text(self, token, escape=True):
-        return (token.content.replace('$', '\\$').replace('#', '\\#')
-                             .replace('{', '\\{').replace('}', '\\}')
-                             .replace('&', '\\&').replace('_', '\\_')
-                             .replace('%', '\\%').replace('^', '\\^{}')
-               ) if escape else token.content
+        return token.content.translate(self._escape_table) if escape else token.content
 
     def render_heading(self, token):
         inner = self.render_inner(token)
